@@ -28,8 +28,9 @@ META = {
     "assumptions": ["A1 reals for floats", "A2 linear-algebra contract stubs", "R invertible (full column rank walkers)",
                     "get_init_walkers: not applicable (eager NumPy/LAPACK eigenvectors, data-dependent Python branches)"],
     "bounds": {"quick": "2 walkers per batch, norb 3, (1,1),(2,1),(2,2) electrons; rhf/cisd with the restricted propagator, uhf/noci/ghf with the unrestricted one; "
-                        "1 Cholesky matrix; Q, R, Hamiltonian and trial parameters symbolic",
-               "thorough": "norb 4, 2 Cholesky matrices, ucisd"},
+                        "1 Cholesky matrix; Q, R, Hamiltonian and trial parameters symbolic; free-projection bookkeeping uhf (3;2,1) with 2 walkers and a symbolic pre-state norm; "
+                        "rdm1 of rhf (3;1,1),(3;2,2) and uhf (3;2,1),(3;2,2),(3;1,0)",
+               "thorough": "norb 4, 2 Cholesky matrices, ucisd; bookkeeping with a noci trial; rdm1 rhf (4;2,2)"},
     "outside": "orthonormality of LAPACK's Q; get_init_walkers; norb > 4",
 }
 
